@@ -57,6 +57,9 @@ TRUSTED = [
     "appboot (in-process Flask app, in-memory SQLite restored from a snapshot before every history, scratch blob folder)",
 ]
 ASSUMPTIONS = [
+    "Period start/duration are not modelled (no reference depends on them); the model is told whether the Period fits "
+    "into its stream (PSpec.fits, computed by the harness from the stream's timing reference); explicit durations are "
+    "only combined with starts on a segment boundary inside the stream",
     "requests are made by a logged-in media-group user with valid CSRF tokens (authorisation is C15)",
     "routes that take a stream id and a media file id are exercised with the owner, another existing stream and a "
     "non-existing stream in the URL (the handlers accept a mismatched pair: the model's delMedia/editMedia take both ids)",
@@ -64,7 +67,8 @@ ASSUMPTIONS = [
     "within a single request (malformed input is C16)",
     "management operations answering 5xx (duplicate stream directory: IntegrityError) are modelled as refusals that "
     "leave the store unchanged; the property's 5xx clause is about manifests of listed streams",
-    "manifests requested: hand_made.mpd in vod and live mode with default options, and vod with drm=all; media "
+    "manifests requested after every step for every listed stream and multi-period stream: hand_made.mpd in vod and "
+    "live mode, with and without timeline=1 (streams also vod with drm=all); media "
     "requested: init and first media segment (live and vod) of every stream's timing-reference file",
     "stream defaults (Stream.defaults JSON) are not part of the modelled state (no reference or constraint depends on "
     "them): setDefaults only answers ok/nf/rej; the generator submits every field of the defaults page with legal "
@@ -114,6 +118,7 @@ MPS_NAMES = ["mpsone", "mpstwo", "mp"]
 MPS_TITLES = ["MPS_one", "MPS_two", "M2"]
 PIDS = ["p1", "p2", "p3"]
 TRACKS = [1, 2, 3, 4, 5, 9]
+SPEC_TRACKS = [0, 1, 2, 3, 4, 5, 9, 4294967295]      # track ids named by a Period (any number is accepted)
 
 
 def _w():
@@ -180,11 +185,41 @@ def gen_periods(rng, rows, own_periods, other_periods):
             oldpids.add(old)
         have = sorted({f["track"] for f in rows["files"] if f["stream"] == s and f["indexed"]})
         tracks = []
-        for t in have + [rng.choice(TRACKS)]:
+        for t in have + [rng.choice(SPEC_TRACKS)]:
             if t not in tracks and rng.random() < .7:
                 tracks.append(t)
-        ps.append((pk, pid, s, rng.randrange(1, 6), tuple(tracks)))
+        start_us, dur_us = gen_period_times(rng, rows, s)
+        ordering = rng.choice([0, 1, 999]) if rng.random() < .15 else rng.randrange(1, 6)
+        ps.append((pk, pid, s, ordering, tuple(tracks), start_us, dur_us, _w().period_fits(rows, s, start_us, dur_us)))
     return tuple(ps)
+
+
+def gen_period_times(rng, rows, spk):
+    """Period start and duration in microseconds from boundary pools: durations 0 (= the default, to the end of the
+    stream), 1 us, 499 us, 500 us (the rounding boundary of the millisecond the manifest writes), 1 ms, fractional,
+    one segment, exactly the rest of the stream, 1 us more, far more; starts 0, one segment in, at the end, 1 us and one
+    segment beyond it, far beyond.  An explicit duration is only combined with a start on a segment boundary inside the
+    stream (where the snapped start is the requested one, so that `fits` is exact)."""
+    from fractions import Fraction
+    st = next((x for x in rows["streams"] if x["pk"] == spk), None)
+    if st is None or not st.get("timing"):
+        return rng.choice([0, 4_000_000]), rng.choice([0, 0, 499, 1_500_000])
+    md, ts, sd = st["timing"]
+    D, seg = Fraction(md * 10**6, ts), Fraction(sd * 10**6, ts)
+    whole = D.denominator == 1 and seg.denominator == 1 and 0 < seg < D
+    start = 0
+    r = rng.random()
+    if r < .22 and whole:
+        start = int(seg)
+    elif r < .34:
+        start = rng.choice([int(D), int(D) + 1, int(D + seg), 100_000_000])
+    if start >= D or rng.random() < .5:
+        return start, 0
+    pool = [1, 499, 499, 500, 1000, 1_500_000, 3_600_000_000]
+    if whole:
+        rest = int(D) - start
+        pool += [int(seg), rest, rest + 1, 2 * int(D)]
+    return start, rng.choice(pool)
 
 
 def progress_op(rng, rows):
@@ -518,7 +553,7 @@ def ops_json(ops):
     out = []
     for o in ops:
         if o[0] in ("am", "mm"):
-            out.append(list(o[:-1]) + [[list(p[:-1]) + [list(p[-1])] for p in o[-1]]])
+            out.append(list(o[:-1]) + [[list(p[:4]) + [list(p[4])] + list(p[5:8]) for p in o[-1]]])
         elif o[0] == "sd":
             out.append([o[0], o[1], [list(p) for p in o[2]], bool(o[3])])
         else:
@@ -530,7 +565,7 @@ def ops_from_json(js):
     out = []
     for o in js:
         if o[0] in ("am", "mm"):
-            ps = tuple((p[0], p[1], p[2], p[3], tuple(p[4])) for p in o[-1])
+            ps = tuple((p[0], p[1], p[2], p[3], tuple(p[4])) + tuple(p[5:8]) for p in o[-1])
             out.append(tuple(o[:-1]) + (ps,))
         elif o[0] == "sd":
             out.append((o[0], o[1], tuple((p[0], p[1]) for p in o[2]), bool(o[3])))
